@@ -52,7 +52,24 @@ def _args(api, line, tools, d):
         if tr:
             a.append("-t")
         return a
+    if api == "cliverdict":
+        tool, variant, infmt = (int(x) for x in t[:3])
+        inb, p = _take_list(t, 3)
+        open(os.path.join(d, "in"), "wb").write(bytes(inb))
+        name, opts = VERDICT_TOOLS[tool]
+        return [tools[name], os.path.join(d, "in"), "-i", FMT[infmt]] + opts[variant].split()
     raise ValueError(api)
+
+
+# tool id -> (executable, option string per variant); ids as in CliModel.verdict_spec
+VERDICT_TOOLS = {0: ("cmr-tu", ["", "--algo eulerian", "--algo partition", "--no-direct-graphic --no-series-parallel",
+                             "--decompose YP", "--decompose P3", "--decompose Y3"]),
+                 1: ("cmr-regular", ["", "--no-direct-graphic", "--no-series-parallel", "--decompose YP", "--decompose Y3"]),
+                 2: ("cmr-graphic", ["", "-t"]),
+                 4: ("cmr-series-parallel", ["", "-b"]),
+                 5: ("cmr-balanced", ["", "--algorithm submatrix", "--no-series-parallel"]),
+                 6: ("cmr-ctu", [""]),
+                 8: ("cmr-k-ary", ["-I", "-t", "-b"])}
 
 
 def run_cases(api, lines, cfg="dbg"):
@@ -78,7 +95,10 @@ def run_cases(api, lines, cfg="dbg"):
             if rc < 0 or BAD.search(err):
                 return i, None, rc, err[-3000:]
             out = os.path.join(d, "out")
-            if os.path.exists(out):
+            if api == "cliverdict":
+                tb = (r.stdout + "\n" + err).encode("utf-8", "replace") if rc != -14 else b""
+                tail = "%d %s" % (len(tb), " ".join(str(b) for b in tb))
+            elif os.path.exists(out):
                 ob = open(out, "rb").read()
                 tail = "1 %d %s" % (len(ob), " ".join(str(b) for b in ob))
             else:
